@@ -69,7 +69,16 @@ func runCases(cases []Case) {
 			defer o.Close()
 			for i := range ch {
 				c := &rec{}
-				runCase(o, c, cases[i])
+				func() {
+					// safety net: a panic of the code under test inside a case is an observation about that input
+					// (no keys are produced for it), not a crash of the harness
+					defer func() {
+						if x := recover(); x != nil {
+							c.PropFail("panic-"+cases[i].Kind, fmt.Sprint("the code under test panics on this input: ", x), cases[i])
+						}
+					}()
+					runCase(o, c, cases[i])
+				}()
 				res[i] = c
 			}
 		}(o)
